@@ -95,11 +95,13 @@ func (cm *CMap) parseCodeSpaceRange(content string) error {
 		return nil // No codespacerange section
 	}
 
-	endIdx := strings.Index(content[beginIdx:], "endcodespacerange")
+	// The section ends at the first end keyword after the begin keyword (the
+	// two share a letter, so the search must not start inside the begin keyword)
+	endIdx := strings.Index(content[beginIdx+len("begincodespacerange"):], "endcodespacerange")
 	if endIdx == -1 {
 		return nil
 	}
-	endIdx += beginIdx
+	endIdx += beginIdx + len("begincodespacerange")
 
 	// Extract section content
 	section := content[beginIdx+len("begincodespacerange") : endIdx]
@@ -161,11 +163,11 @@ func (cm *CMap) parseBfChar(content string) error {
 		}
 		beginIdx += start
 
-		endIdx := strings.Index(content[beginIdx:], "endbfchar")
+		endIdx := strings.Index(content[beginIdx+len("beginbfchar"):], "endbfchar")
 		if endIdx == -1 {
 			break
 		}
-		endIdx += beginIdx
+		endIdx += beginIdx + len("beginbfchar")
 
 		// Extract section content
 		section := content[beginIdx+len("beginbfchar") : endIdx]
@@ -255,11 +257,11 @@ func (cm *CMap) parseBfRange(content string) error {
 		}
 		beginIdx += start
 
-		endIdx := strings.Index(content[beginIdx:], "endbfrange")
+		endIdx := strings.Index(content[beginIdx+len("beginbfrange"):], "endbfrange")
 		if endIdx == -1 {
 			break
 		}
-		endIdx += beginIdx
+		endIdx += beginIdx + len("beginbfrange")
 
 		// Extract section content
 		section := content[beginIdx+len("beginbfrange") : endIdx]
